@@ -10,6 +10,39 @@ BASE_NOTE = ("Trusted: Coq 8.16.1 kernel + vm_compute; the fail-closed Python-as
              "evidence file. ")
 
 CLAIMED = {
+    "C01": dict(
+        technique="Coq proof by reflection over accumulation tables regenerated from the source (ast translator) + generic-ring "
+                  "algebra (decomposition theorem) + exact Qc correspondence against pygom's symbolic objects",
+        text="table_sound (proved once, any commutative ring, any model size): if the table extracted from get_ode_eqn / "
+             "get_StateChangeMatrix / get_EventRateVector / get_pureOdeVector passes the boolean check then the loop computes "
+             "exactly sum over events of rate x net signed magnitude + explicit terms; C01_decomposition: ODE = V x rates + "
+             "pure for every model. Per run: the tables are re-extracted and checked by vm_compute; the table interpreter "
+             "instantiated at Qc is compared exactly with pygom's reported ODE/V/rates/pure on random definitions through all "
+             "API routes; numeric evaluators (lambda and a measured Cython subset) at 1e-9.",
+        ref="DESIGN.md section 4 C01",
+        note="Modelled: the four assembly loops and simplifyEquation's identity. Tied by correspondence only: checkEquation "
+             "(sympy parsing, derived-parameter substitution), add_* normalisation, compiled argument order. Theorems closed "
+             "under the global context."),
+    "C10": dict(
+        technique="Coq proof (generic ring, induction over events/transitions: columns of V and the assembled RHS of a "
+                  "transition-only model sum to zero) over the regenerated tables + Qc correspondence + direct runs",
+        text="C10_cols and C10_rhs hold for every transition-only model of any size with arbitrary rates and magnitudes, "
+             "stated over the code's extracted tables; the stochastic-path half (C10_path) is proved in the jump-loop model "
+             "(Props/C04.v). Per run: Coq evaluates the closedness hypothesis and the zero sums on the same literals pygom "
+             "built; sum(get_ode_eqn()) is checked exactly at rational points; integrate() and solve_stochast totals directly.",
+        ref="DESIGN.md section 4 C10",
+        note="Deterministic conservation 'within solver tolerance' is a runtime fact of odeint, judged at 1e-6 relative. "
+             "Theorems closed under the global context."),
+    "C12": dict(
+        technique="Coq proof (permutation invariance, event splitting, explicit-ODE route, birth-by-origin) over the regenerated "
+                  "tables + correspondence on the event lists pygom holds after each API route",
+        text="C12_perm / C12_split_event / C12_explicit_route / C12_birth_origin hold for all models over any commutative ring. "
+             "Per run: the same random process set is entered through Event objects, legacy lists, per-process mixes and "
+             "incremental add_* in random orders and declaration styles; the normalised event lists are read back and must be "
+             "equal as multisets; Coq (Qc) evaluates both read-backs under the extracted tables and compares with pygom's ODEs.",
+        ref="DESIGN.md section 4 C12",
+        note="Route normalisation code (add_transition, add_event, add_birth_death, Event/Transition constructors, declaration "
+             "splitting) is tied by correspondence, not translated. Theorems closed under the global context."),
     "C09": dict(
         technique="Coq refinement proof (ordered-dict model of the parameters setter -> name->value map, induction over "
                   "all assignment histories) + source fact translator + vm_compute correspondence on random histories",
